@@ -260,8 +260,17 @@ def describe(lc, names):
 def run(ctx: common.Ctx):
     logging.disable(logging.INFO)
     rng = ctx.rng
+    import time
+    phase_t = {"_": time.time()}
+
+    def phase(name):
+        now = time.time()
+        phase_t[name] = round(now - phase_t["_"], 2)
+        phase_t["_"] = now
+        ctx.extra["phase_seconds"] = {k: v for k, v in phase_t.items() if k != "_"}
+
     ctx.rule = ("C: every class of the running PyDSDL x every assignment of the nearest K classes of its chain to {none,user,built-in,both} "
-                "(K=5 quick, whole chain thorough; farther classes random) in a scratch user dir + scratch package, cold and after random "
+                "(K=4 quick, K=7 = the whole chain up to Any thorough; farther classes random) in a scratch user dir + scratch package, cold and after random "
                 "warm-up look-ups, loaders with both/one source; D: random synthetic hierarchies; F: every instance test x every PyDSDL "
                 "object of a parsed generated namespace; G: additional filters/tests/globals drawn from built-in, prefixed, reserved and "
                 "fresh names.  Non-trivial = at least one template present / a colliding or prefixed name; distinct by full input.")
@@ -284,6 +293,7 @@ def run(ctx: common.Ctx):
     drivers = ctx.prove(["C16"], exes=["resolve"])
     drv = drivers.get("resolve")
 
+    phase("prove")
     import pydsdl
     import nunavut
     under_any, all_classes = walk_pydsdl()
@@ -354,6 +364,7 @@ def run(ctx: common.Ctx):
     ctx.count("type_classes", len(type_classes))
     ctx.count("attribute_classes", len(attr_classes))
 
+    phase("A")
     # ================================================================================================================
     # B. alias rule and suffix/stem on arbitrary names
     # ================================================================================================================
@@ -393,6 +404,7 @@ def run(ctx: common.Ctx):
             if (dec(ms), dec(mx)) != impl or (dec(mx) == SUFFIX) != bool(kept):
                 ctx.disagree("split", n, (dec(ms), dec(mx)), {"stem_suffix": impl, "kept": bool(kept)})
 
+    phase("B")
     # ================================================================================================================
     # C. type_to_template on the PyDSDL classes
     # ================================================================================================================
@@ -498,7 +510,7 @@ def run(ctx: common.Ctx):
         target = by_name[c["query"]]
         one_config(src, target, [target], [c.get("mode", "both")], fixed_warm=[by_name[n] for n in c["warm"]])
     # exhaustive over the nearest K classes of each chain
-    K = 5 if ctx.quick else 99
+    K = 4 if ctx.quick else 7
     table_classes = sorted(index_of, key=lambda c: index_of[c])
     nconf = 0
     for ci, target in enumerate(table_classes):
@@ -526,7 +538,7 @@ def run(ctx: common.Ctx):
             nconf += 1
             maybe_flush()
     # random: global assignments over all classes, both layouts, longer warm-ups
-    nrand = 300 if ctx.quick else 4000
+    nrand = 1500 if ctx.quick else 6000
     for _ in range(nrand):
         src = rng.choice(srcs)
         dens = rng.choice([0.1, 0.3, 0.6])
@@ -563,6 +575,7 @@ def run(ctx: common.Ctx):
             ctx.fail({"kind": "enumeration-order-dependence"}, "result depends on the order templates are listed in",
                      {"stream": "order", "files": files, "shuffled": sh, "query": target.__name__, "a": str(a), "b": str(b)})
 
+    phase("C")
     # ================================================================================================================
     # D. synthetic hierarchies: the loop itself (multiple inheritance, shared names, duplicate stems)
     # ================================================================================================================
@@ -616,6 +629,7 @@ def run(ctx: common.Ctx):
     # ---- model side of D ----------------------------------------------------------------------------------------------
     flush_lookups(syn_cases)
 
+    phase("D")
     # ================================================================================================================
     # E. get_source
     # ================================================================================================================
@@ -626,7 +640,7 @@ def run(ctx: common.Ctx):
     tnames = ["A.j2", "B.j2", "sub/C.j2", "D.txt"]
     src_lines, src_impl = [], []
     for k, assign in enumerate(itertools.product(range(8), repeat=len(tnames))):
-        if ctx.quick and k % 7 and rng.random() < 0.8:
+        if ctx.quick and k % 11 and rng.random() < 0.95:
             continue
         shutil.rmtree(e_root, ignore_errors=True)
         for d in e_dirs:
@@ -673,6 +687,7 @@ def run(ctx: common.Ctx):
                 ctx.disagree("get_source", ln, m, impl)
     ctx.extra["get_source_cases"] = len(src_lines)
 
+    phase("E")
     # ================================================================================================================
     # F. instance tests on parsed objects
     # ================================================================================================================
@@ -690,7 +705,7 @@ def run(ctx: common.Ctx):
     (ns_dir / "Svc.1.0.dsdl").write_text(f"uint{w(1, 64)} q\n@sealed\n---\nuint{w(1, 64)} r\nvoid{w(1, 8)}\n@extent {8 * w(8, 20)}\n")
     types = pydsdl.read_namespace(str(ns_dir), [])
     from nunavut.lang import LanguageContextBuilder
-    lctx = LanguageContextBuilder().set_target_language(rng.choice(["c", "cpp", "py", "html"])).create()
+    lctx = LanguageContextBuilder(include_experimental_languages=True).set_target_language(rng.choice(["c", "cpp", "py", "html"])).create()
     root_ns = nunavut.build_namespace_tree(types, str(ns_dir), str(ctx.scratch / "out"), lctx)
     generator = DSDLCodeGenerator(root_ns)
     env_tests = generator._env.tests
@@ -765,10 +780,59 @@ def run(ctx: common.Ctx):
     ctx.sample({"stream": "tests", "test": "padding", "on": "PaddingField",
                 "value": bool(env_tests["padding"](next(v for v in values if isinstance(v, pydsdl.PaddingField)))) if "padding" in env_tests else None})
 
+    # ---- F2. the product path: DSDLCodeGenerator.filter_type_to_template(value) on the parsed objects ------------------
+    f2_lines, f2_impl, f2_meta = [], [], []
+    for variant in ["builtin"] + ["userdir"] * (6 if ctx.quick else 40):
+        if variant == "userdir":
+            src = srcs[0]
+            for cl in table_classes:
+                src.set(cl.__name__, rng.choice((USER, BUILTIN, BOTH)) if rng.random() < 0.3 else NONE)
+            g = DSDLCodeGenerator(root_ns, templates_dir=src.usr)
+        else:
+            g = generator
+        ld = g.dsdl_loader
+        fs = sorted(ld._fsloader.list_templates()) if ld._fsloader is not None else None
+        pk = sorted(ld._package_loader.list_templates()) if ld._package_loader is not None else None
+        seq = [v for v in values if type(v) in index_of]
+        rng.shuffle(seq)
+        seq = seq[: 40]
+        impl = []
+        for v in seq:
+            try:
+                impl.append(g.filter_type_to_template(v))
+            except RuntimeError:
+                impl.append(None)
+        f2_lines.append("seq new @ " + opt_files(fs) + " " + opt_files(pk) + " " + ",".join(str(index_of[type(v)]) for v in seq))
+        f2_impl.append(impl)
+        f2_meta.append({"variant": variant, "fs": fs, "pkg": None if pk is None else [x for x in pk if x.endswith(SUFFIX)], "objects": [type(v).__name__ for v in seq]})
+        ustems = {pathlib.PurePosixPath(x).stem for x in (fs or []) if x.endswith(SUFFIX)}
+        bstems = {pathlib.PurePosixPath(x).stem for x in (pk or []) if x.endswith(SUFFIX)}
+        if variant == "userdir" and pk is not None:
+            ctx.fail({"kind": "generator-uses-both-sources"}, "DSDLCodeGenerator with a templates directory still searches the package", {"stream": "generator"})
+        for v, got in zip(seq, impl):
+            exp = expected_resolution(type(v), ustems, bstems)
+            ctx.case(("filter_type_to_template", variant, tuple(sorted(ustems)) if variant == "userdir" else lctx.get_target_language().name, type(v).__name__), exp is not None)
+            ctx.count("generator-" + variant)
+            if (None if exp is None else exp[0] + SUFFIX) != got:
+                beyond = got is not None and pathlib.PurePosixPath(got).stem not in [c.__name__ for c in chain_to_any(type(v))]
+                ctx.fail({"kind": "chain-passes-any", "stem": pathlib.PurePosixPath(got).stem} if beyond else
+                         {"kind": "not-nearest-class", "via": "filter_type_to_template"},
+                         f"filter_type_to_template({type(v).__name__} object) gave {got}, nearest class with a template is {exp}",
+                         {"stream": "generator", "variant": variant, "user_stems": sorted(ustems), "builtin_stems": sorted(bstems), "object": type(v).__name__, "result": got})
+    for ln, impl, meta, m in zip(f2_lines, f2_impl, f2_meta, ask(f2_lines)):
+        if m is None:
+            continue
+        ctx.traces += 1
+        pm = parse_seq_answer(m)
+        model = pm if isinstance(pm, str) else [None if x is None else pathlib.PurePosixPath(x).name for x in pm[0]]
+        if model != impl:
+            ctx.disagree("filter_type_to_template", meta, model, impl)
+    phase("F")
     # ================================================================================================================
     # G. the environment
     # ================================================================================================================
     run_env_stream(ctx, ask, root_ns, lctx, corpus)
+    phase("G")
 
 
 # ======================================================================================================================
